@@ -237,6 +237,10 @@ def run(pid, tier, seed, replay=None):
         violations.extend(crash_violations(crashes, pid, inputs_by_id))
         validate(trace, 'spec_generated_inputs_release_build')
         os.remove(trace)
+        crashes = core.run_drive(rbin, ['decode-gen', '--seed', str(pseed), '--n', str(n)] + sweep, trace, wd)
+        violations.extend(crash_violations(crashes, pid, {}))
+        validate(trace, 'recorded_damaged_packets_release_build')
+        os.remove(trace)
 
     if pid == 'C06':
         # second half of C06: reading a header from io::Read == decoding it from a slice (13 header types, every fault position)
